@@ -73,7 +73,8 @@ Guard ==
     [] cur.op = "remove"       -> SafeRemove(Pre, cur.i)
     [] cur.op = "remove_batch" -> SafeRemoveBatch(Pre, ArgSet)
     [] cur.op \in {"remove_fwd", "delete_gracefully"} -> InRange(Pre, cur.i)
-    [] cur.op = "append_from"  -> WF(Other)
+    \* fresh names come from the counter: it must be ahead of every var_N in use
+    [] cur.op = "append_from"  -> WF(Other) /\ CounterAhead(Pre.st, Pre.ctr)
     [] OTHER -> TRUE
 
 Defined ==      \* the call is within the domain the operators are defined on
